@@ -1,6 +1,7 @@
 package c13
 
 import (
+	"bytes"
 	"fmt"
 	"sort"
 	"testing"
@@ -30,10 +31,12 @@ const (
 	evRxDuplicate // the most recently received bundle arrives once more, from another connected peer
 	evFailOne     // only the first connected peer fails / works again
 	evOwnBack     // a copy of a locally submitted bundle the node transmitted is handed back by a connected peer
+	evLinkA2      // a second convergence layer (other address, same peer endpoint ID) towards peer A comes up
+	evRxLinkState // a DTLSR link-state broadcast of a third node arrives through a connected peer; timestamps come out of order
 	nEvents
 )
 
-var evNames = []string{"submit", "rx_from_a", "rx_from_b", "up_a", "up_b", "up_c", "down", "toggle_fail", "retry_tick", "restart", "up_dest", "rx_without_previous_node", "rx_duplicate", "toggle_fail_first_peer", "own_bundle_comes_back"}
+var evNames = []string{"submit", "rx_from_a", "rx_from_b", "up_a", "up_b", "up_c", "down", "toggle_fail", "retry_tick", "restart", "up_dest", "rx_without_previous_node", "rx_duplicate", "toggle_fail_first_peer", "own_bundle_comes_back", "second_link_to_a", "rx_link_state_broadcast"}
 
 type tracked struct {
 	id       string // bundle ID on the wire
@@ -60,6 +63,7 @@ type scenario struct {
 	lastWire  []byte
 	lastFrom  string
 	failOne   map[string]bool
+	lsN        int  // link-state broadcasts received so far
 	persistent bool // sent-memory is kept in the store
 	v3      bool   // a failed peer must be retried at the next opportunity
 }
@@ -141,6 +145,42 @@ func (sc *scenario) rx(from string, withPrev bool) {
 	sc.lastWire, sc.lastFrom = wire, from
 }
 
+// rxLinkState: node o1's link-state broadcast reaches this node through a connected peer (which is its previous node).
+// The link-state timestamps arrive out of order and repeat (300, 200, 300, 400, 100 ...), as they do when broadcasts
+// travel along different paths; each broadcast is a bundle of its own.
+func (sc *scenario) rxLinkState() {
+	from := "a"
+	if !sc.up[from] {
+		from = sc.firstUp()
+	}
+	if from == "" {
+		return
+	}
+	stamps := []uint64{300, 200, 300, 400, 100}
+	ts := stamps[sc.lsN%len(stamps)]
+	sc.lsN++
+	sc.n++
+	m := model.Bundle{Version: 7, CRC: 2, Flags: model.FNoFragment, Dst: model.Dtn("routing", "dtlsr/broadcast/"), Src: model.Dtn("o1", ""), Rpt: model.Dtn("o1", ""),
+		Time: bubble.NowMs() - 500, Seq: uint64(5000 + sc.n), Lifetime: 3_600_000,
+		Blocks: []model.Block{
+			{Type: model.TPrevNode, Num: 3, Node: model.Dtn(from, "")},
+			{Type: model.TDTLSR, Num: 2, Node: model.Dtn("o1", ""), U: ts, Peers: []model.PeerTime{{Peer: model.Dtn("o2", ""), Time: 0}}},
+			{Type: model.TPayload, Num: 1, Data: []byte{1}}}}
+	wire, _ := m.Encode(nil)
+	b, err := bpv7.ParseBundle(bytes.NewReader(wire))
+	if err != nil {
+		sc.r.Count("harness.link_state_rejected", 1)
+		return
+	}
+	id := b.ID().String()
+	sc.byID[id] = &tracked{id: id, prev: from, dest: "", okTo: map[string]int64{}, failedTo: map[string]bool{}, broadcast: true}
+	if err := sc.s.Deliver(from, wire); err != nil {
+		delete(sc.byID, id)
+		return
+	}
+	sc.r.Count("link_state_broadcasts.received", 1)
+}
+
 func (sc *scenario) submit() {
 	sc.n++
 	pid := fmt.Sprintf("x%d", sc.n)
@@ -191,13 +231,27 @@ func (sc *scenario) apply(ev int) {
 			}
 			break
 		}
+	case evLinkA2:
+		if sc.up["a"] && len(sc.s.Links("a")) == 0 {
+			sc.s.PeerUpLink("a", 2, func(p *nodesim.Peer) {
+				if sc.failing || sc.failOne["a"] {
+					p.Fail()
+				}
+			})
+			opportunity = true
+		}
+	case evRxLinkState:
+		sc.rxLinkState()
 	case evFailOne:
 		if n := sc.firstUp(); n != "" {
 			if sc.failOne == nil {
 				sc.failOne = map[string]bool{}
 			}
 			sc.failOne[n] = !sc.failOne[n]
-			if p := sc.s.Peer(n); p != nil {
+			for _, p := range append(sc.s.Links(n), sc.s.Peer(n)) {
+				if p == nil {
+					continue
+				}
 				if sc.failOne[n] || sc.failing {
 					p.Fail()
 				} else {
@@ -221,7 +275,10 @@ func (sc *scenario) apply(ev int) {
 	case evToggleFail:
 		sc.failing = !sc.failing
 		for n, u := range sc.up {
-			if p := sc.s.Peer(n); u && p != nil {
+			for _, p := range append(sc.s.Links(n), sc.s.Peer(n)) {
+				if !u || p == nil {
+					continue
+				}
 				if sc.failing || sc.failOne[n] {
 					p.Fail()
 				} else {
@@ -258,6 +315,9 @@ func (sc *scenario) lookup(rec nodesim.SendRec) *tracked {
 		return sc.byPID[rec.PID]
 	}
 	// DTLSR link-state broadcasts made by this or other nodes are tracked by their ID
+	if tr := sc.byID[rec.ID]; tr != nil {
+		return tr
+	}
 	if sc.algo == "dtlsr" && rec.Bundle.Dst == model.Dtn("routing", "dtlsr/broadcast/") {
 		tr := sc.byID[rec.ID]
 		if tr == nil {
@@ -313,6 +373,12 @@ func (sc *scenario) check(opportunity bool) {
 			}
 		}
 		if rec.OK {
+			if _, ok := tr.okTo[rec.Peer]; ok && !direct {
+				// a second successful transmission to the peer whose call overlapped with the first one (e.g. over two
+				// convergence layers chosen in one decision)
+				sc.violation("c13.sent-twice:"+sc.algo+":overlapping", fmt.Sprintf("bundle %s was transmitted successfully to %s twice while the node held it (overlapping transmissions)", rec.ID, rec.Peer))
+				return
+			}
 			if _, ok := tr.okTo[rec.Peer]; !ok || direct {
 				tr.okTo[rec.Peer] = rec.RetNo
 			}
@@ -525,6 +591,19 @@ func TestCheck(t *testing.T) {
 		{evUpA, evUpB, evUpC, evRxFromB, evRxDuplicate, evDown, evUpA, evTick},
 		{evUpA, evSubmit, evUpB, evOwnBack, evTick, evOwnBack, evUpC, evTick},
 	}
+	scripts = append(scripts,
+		// two convergence layers towards one peer
+		[]int{evUpA, evLinkA2, evSubmit, evTick, evUpB, evTick},
+		[]int{evUpA, evLinkA2, evUpB, evRxFromB, evTick, evTick},
+		[]int{evUpA, evSubmit, evLinkA2, evTick, evToggleFail, evSubmit, evToggleFail, evTick, evTick},
+		[]int{evToggleFail, evUpA, evLinkA2, evSubmit, evToggleFail, evTick, evTick},
+		[]int{evUpA, evLinkA2, evRxLinkState, evUpB, evTick, evRxLinkState, evTick},
+		// link-state broadcasts of a third node arriving out of order through peer a
+		[]int{evUpA, evUpB, evRxLinkState, evRxLinkState, evTick, evTick},
+		[]int{evUpA, evUpB, evUpC, evRxLinkState, evRxLinkState, evRxLinkState, evTick, evRxLinkState, evRxLinkState, evTick},
+		[]int{evUpA, evRxLinkState, evRxLinkState, evUpB, evTick, evRestart, evUpA, evUpB, evTick},
+		[]int{evUpA, evUpB, evToggleFail, evRxLinkState, evRxLinkState, evToggleFail, evTick, evTick},
+	)
 	r.Group("duplicates", len(scripts)*len(algos), func(i int, rng *report.Rand) {
 		run(algos[i%len(algos)], scripts[i/len(algos)])
 	})
